@@ -26,9 +26,10 @@ Definition handed_over (p : pc) : bool :=
 
 Definition asking (p : pc) : option nat := match p with PReq t => Some t | _ => None end.
 
-Record Inv (c : config) (s : state) : Prop := mkInv {
+Record Inv (c : config) (hs : list Z) (s : state) : Prop := mkInv {
   inv_arr : Forall (fun t => t < ntasks c) (s_arr s);
-  inv_hs : map g_h (s_gs s) = heights c;
+  inv_hs : map g_h (s_gs s) = hs;
+  inv_sub : incl hs (heights c);
   inv_req : forall g t, asking (g_pc (nth g (s_gs s) dummy_g)) = Some t ->
       t < ntasks c /\ (g_h (nth g (s_gs s) dummy_g) <=? c_adv c (task_peer (init_job c) t))%Z = true;
   inv_log : forall o, In o (s_log s) -> log_ok c o;
@@ -90,27 +91,23 @@ Proof.
   apply in_seq in Hi. apply andb_true_iff. split; apply Z.leb_le; lia.
 Qed.
 
-Lemma inv_init c : Inv c (init_state (init_job c) (heights c)).
+Lemma inv_init c hs : incl hs (heights c) -> Inv c hs (init_state (init_job c) hs).
 Proof.
+  intro Hsub.
+  assert (Hpc : forall g, g_pc (nth g (map (fun h => mkG h (length (init_job c)) 0 PStart) hs) dummy_g) = PStart
+                          \/ g_pc (nth g (map (fun h => mkG h (length (init_job c)) 0 PStart) hs) dummy_g) = PDone false).
+  { intro g. destruct (Nat.lt_ge_cases g (length hs)) as [Hl|Hl].
+    - left. rewrite (nth_indep _ dummy_g (mkG 0%Z (length (init_job c)) 0 PStart)) by (rewrite map_length; exact Hl).
+      rewrite (map_nth (fun h => mkG h (length (init_job c)) 0 PStart) hs 0%Z g). reflexivity.
+    - right. rewrite nth_overflow by (rewrite map_length; exact Hl). reflexivity. }
   constructor; unfold init_state; cbn [s_arr s_gs s_log].
   - apply Forall_forall. intros t Ht. apply in_seq in Ht. unfold ntasks. lia.
   - rewrite map_map. simpl. apply map_id.
-  - intros g t H. exfalso.
-    destruct (Nat.lt_ge_cases g (length (heights c))) as [Hl|Hl].
-    + rewrite (nth_indep _ dummy_g (mkG 0%Z (length (init_job c)) 0 PStart)) in H
-        by (rewrite map_length; exact Hl).
-      rewrite (map_nth (fun h => mkG h (length (init_job c)) 0 PStart) (heights c) 0%Z g) in H.
-      discriminate.
-    + rewrite nth_overflow in H by (rewrite map_length; exact Hl). discriminate.
+  - exact Hsub.
+  - intros g t H. exfalso. destruct (Hpc g) as [E|E]; rewrite E in H; discriminate.
   - intros o Ho. pose proof (init_job_peers c) as Hp.
     destruct (init_job c); [inversion Ho|]. destruct Ho as [<-|[]]. exact Hp.
-  - intros g H. exfalso.
-    destruct (Nat.lt_ge_cases g (length (heights c))) as [Hl|Hl].
-    + rewrite (nth_indep _ dummy_g (mkG 0%Z (length (init_job c)) 0 PStart)) in H
-        by (rewrite map_length; exact Hl).
-      rewrite (map_nth (fun h => mkG h (length (init_job c)) 0 PStart) (heights c) 0%Z g) in H.
-      discriminate.
-    + rewrite nth_overflow in H by (rewrite map_length; exact Hl). discriminate.
+  - intros g H. exfalso. destruct (Hpc g) as [E|E]; rewrite E in H; discriminate.
 Qed.
 
 (** * Preservation *)
@@ -118,17 +115,17 @@ Qed.
 Lemma has_delivery_mono c h log o : has_delivery c h log -> has_delivery c h (o :: log).
 Proof. intros [p [a [H1 [H2 H3]]]]. exists p, a. repeat split; auto. right. exact H3. Qed.
 
-Lemma g_h_in c s g : Inv c s -> g < length (s_gs s) -> In (g_h (nth g (s_gs s) dummy_g)) (heights c).
+Lemma g_h_in c hs s g : Inv c hs s -> g < length (s_gs s) -> In (g_h (nth g (s_gs s) dummy_g)) (heights c).
 Proof.
-  intros HI Hg. rewrite <- (inv_hs _ _ HI).
+  intros HI Hg. apply (inv_sub _ _ _ HI). rewrite <- (inv_hs _ _ _ HI).
   rewrite <- (map_nth g_h (s_gs s) dummy_g g).
   apply nth_In. rewrite map_length. exact Hg.
 Qed.
 
 (** the part of [Inv] that only depends on goroutine [g] being replaced by a
     goroutine of the same height *)
-Lemma inv_replace c s g G' arr' log' :
-  Inv c s -> g < length (s_gs s) ->
+Lemma inv_replace c hs s g G' arr' log' :
+  Inv c hs s -> g < length (s_gs s) ->
   g_h G' = g_h (nth g (s_gs s) dummy_g) ->
   Forall (fun t => t < ntasks c) arr' ->
   (forall o, In o log' -> In o (s_log s) \/ log_ok c o) ->
@@ -136,25 +133,26 @@ Lemma inv_replace c s g G' arr' log' :
   (forall t, asking (g_pc G') = Some t ->
      t < ntasks c /\ (g_h G' <=? c_adv c (task_peer (init_job c) t))%Z = true) ->
   (handed_over (g_pc G') = true -> has_delivery c (g_h G') log') ->
-  forall tn' idx', Inv c (mkState arr' tn' idx' (upd (s_gs s) g G') log').
+  forall tn' idx', Inv c hs (mkState arr' tn' idx' (upd (s_gs s) g G') log').
 Proof.
   intros HI Hg Hh Harr Hlog Hmono Hreq Hok tn' idx'.
   constructor; cbn [s_arr s_gs s_log].
   - exact Harr.
-  - rewrite (map_upd g_h (s_gs s) g G' dummy_g Hh). apply (inv_hs _ _ HI).
+  - rewrite (map_upd g_h (s_gs s) g G' dummy_g Hh). apply (inv_hs _ _ _ HI).
+  - apply (inv_sub _ _ _ HI).
   - intros g' t. rewrite nth_upd.
     destruct ((g =? g') && (g <? length (s_gs s))) eqn:E.
     + apply Hreq.
-    + apply (inv_req _ _ HI).
-  - intros o Ho. destruct (Hlog o Ho) as [H|H]; [apply (inv_log _ _ HI o H)|exact H].
+    + apply (inv_req _ _ _ HI).
+  - intros o Ho. destruct (Hlog o Ho) as [H|H]; [apply (inv_log _ _ _ HI o H)|exact H].
   - intros g'. rewrite nth_upd.
     destruct ((g =? g') && (g <? length (s_gs s))) eqn:E.
     + apply Hok.
-    + intro H. destruct (inv_ok _ _ HI g' H) as [p [a [H1 [H2 H3]]]].
+    + intro H. destruct (inv_ok _ _ _ HI g' H) as [p [a [H1 [H2 H3]]]].
       exists p, a. repeat split; auto.
 Qed.
 
-Lemma step_inv c s e s' : Inv c s -> step c (init_job c) s e = Some s' -> Inv c s'.
+Lemma step_inv c hs s e s' : Inv c hs s -> step c (init_job c) s e = Some s' -> Inv c hs s'.
 Proof.
   intros HI H. unfold step in H.
   destruct (ev_g e <? length (s_gs s)) eqn:Hlt; simpl in H; [|discriminate].
@@ -166,43 +164,44 @@ Proof.
     inversion H; subst; clear H.
     apply inv_replace; auto.
     + apply Forall_forall. intros t Ht. apply sort_view_in in Ht.
-      apply (proj1 (Forall_forall _ _) (inv_arr _ _ HI) t Ht).
+      apply (proj1 (Forall_forall _ _) (inv_arr _ _ _ HI) t Ht).
     + cbn. intros t Ht. discriminate.
     + cbn. discriminate.
   - (* Pick *)
     destruct (g_vlen G =? 0).
     { inversion H; subst; clear H. unfold set_g.
-      apply inv_replace; auto; try (apply (inv_arr _ _ HI)); cbn; intros; discriminate. }
+      apply inv_replace; auto; try (apply (inv_arr _ _ _ HI)); cbn; intros; discriminate. }
     destruct (max_retry <? S (g_retry G)).
     { inversion H; subst; clear H. unfold set_g.
-      apply inv_replace; auto; try (apply (inv_arr _ _ HI)); cbn; intros; discriminate. }
+      apply inv_replace; auto; try (apply (inv_arr _ _ _ HI)); cbn; intros; discriminate. }
     destruct (scan c (init_job c) (s_tnum s) (g_h G) (limit_of (g_vlen G)) (firstn (g_vlen G) (s_arr s)) 0)
       as [[t i]|] eqn:Hs.
     + inversion H; subst; clear H.
       destruct (scan_some _ _ _ _ _ _ _ _ _ Hs) as [_ [Hi [Hnth [Hadv _]]]]. rewrite Nat.sub_0_r in *.
       assert (Ht : t < ntasks c).
-      { apply (proj1 (Forall_forall _ _) (inv_arr _ _ HI) t).
+      { apply (proj1 (Forall_forall _ _) (inv_arr _ _ _ HI) t).
         apply (in_firstn _ (g_vlen G)). rewrite <- Hnth. apply nth_In. exact Hi. }
       assert (Hel : (g_h G <=? c_adv c (task_peer (init_job c) t))%Z = true)
         by (apply Z.leb_le; apply Z.ltb_ge in Hadv; exact Hadv).
       apply inv_replace; auto.
-      * apply (inv_arr _ _ HI).
+      * apply (inv_arr _ _ _ HI).
       * intros o [<-|Ho]; [right|left; exact Ho].
-        cbn. split; [apply (g_h_in c s g HI Hlt)|]. split; [apply task_peer_in; exact Ht|exact Hel].
+        cbn. split; [apply (g_h_in c hs s g HI Hlt)|]. split; [apply task_peer_in; exact Ht|exact Hel].
       * intros o Ho. right. exact Ho.
       * cbn. intros t' Ht'. inversion Ht'; subst. split; assumption.
       * cbn. discriminate.
     + inversion H; subst; clear H. unfold set_g.
-      apply inv_replace; auto; try (apply (inv_arr _ _ HI)); cbn; intros; discriminate.
+      apply inv_replace; auto; try (apply (inv_arr _ _ _ HI)); cbn; intros; discriminate.
   - (* Result *)
     assert (Hask : asking (g_pc G) = Some t) by (rewrite Hpc; reflexivity).
-    destruct (inv_req _ _ HI g t Hask) as [Ht Hel]. fold G in Hel.
+    destruct (inv_req _ _ _ HI g t Hask) as [Ht Hel]. fold G in Hel.
+    destruct (is_stall (c_beh c (task_peer (init_job c) t) (g_h G))); [discriminate|].
     destruct (accepted (c_beh c (task_peer (init_job c) t) (g_h G))) as [a|] eqn:Ha.
     + inversion H; subst; clear H.
       apply inv_replace; auto.
-      * apply (inv_arr _ _ HI).
+      * apply (inv_arr _ _ _ HI).
       * intros o [<-|Ho]; [right|left; exact Ho].
-        cbn. exists (g_h G). split; [apply (g_h_in c s g HI Hlt)|].
+        cbn. exists (g_h G). split; [apply (g_h_in c hs s g HI Hlt)|].
         split; [apply task_peer_in; exact Ht|]. split; [exact Hel|].
         exists a. split; [exact Ha|]. destruct a; reflexivity.
       * intros o Ho. right. exact Ho.
@@ -210,48 +209,62 @@ Proof.
       * cbn. intros _. exists (task_peer (init_job c) t), a.
         split; [apply task_peer_in; exact Ht|]. split; [exact Ha|]. left. destruct a; reflexivity.
     + inversion H; subst; clear H. unfold set_g.
-      apply inv_replace; auto; try (apply (inv_arr _ _ HI)); cbn; intros; discriminate.
+      apply inv_replace; auto; try (apply (inv_arr _ _ _ HI)); cbn; intros; discriminate.
   - (* Release after a failure *)
     inversion H; subst; clear H.
-    apply inv_replace; auto; try (apply (inv_arr _ _ HI)); cbn; intros; discriminate.
+    apply inv_replace; auto; try (apply (inv_arr _ _ _ HI)); cbn; intros; discriminate.
   - (* Release after success *)
     inversion H; subst; clear H.
-    apply inv_replace; auto; try (apply (inv_arr _ _ HI)).
+    apply inv_replace; auto; try (apply (inv_arr _ _ _ HI)).
     + cbn. intros; discriminate.
-    + cbn. intros _. apply (inv_ok _ _ HI g). fold G. rewrite Hpc. reflexivity.
+    + cbn. intros _. apply (inv_ok _ _ _ HI g). fold G. rewrite Hpc. reflexivity.
   - (* Remove *)
     destruct (g_vlen G <? nth t (s_idx s) 0 + 1).
     + inversion H; subst; clear H. unfold set_g.
-      apply inv_replace; auto; try (apply (inv_arr _ _ HI)); cbn; intros; discriminate.
+      apply inv_replace; auto; try (apply (inv_arr _ _ _ HI)); cbn; intros; discriminate.
     + inversion H; subst; clear H.
       apply inv_replace; auto.
       * apply Forall_forall. intros x Hx. apply remove_shared_in in Hx.
-        apply (proj1 (Forall_forall _ _) (inv_arr _ _ HI) x Hx).
+        apply (proj1 (Forall_forall _ _) (inv_arr _ _ _ HI) x Hx).
       * cbn. intros; discriminate.
       * cbn. discriminate.
   - (* Sleep *)
     inversion H; subst; clear H. unfold set_g.
-    apply inv_replace; auto; try (apply (inv_arr _ _ HI)); cbn; intros; discriminate.
+    apply inv_replace; auto; try (apply (inv_arr _ _ _ HI)); cbn; intros; discriminate.
 Qed.
 
-Lemma exec_inv c sched : forall s, Inv c s -> Inv c (exec c (init_job c) s sched).
+Lemma exec_inv c hs sched : forall s, Inv c hs s -> Inv c hs (exec c (init_job c) s sched).
 Proof.
   induction sched as [|e tl IH]; intros s HI; simpl; [exact HI|].
   destruct (step c (init_job c) s e) as [s'|] eqn:Hs.
-  - apply IH. apply (step_inv _ _ _ _ HI Hs).
+  - apply IH. apply (step_inv _ _ _ _ _ HI Hs).
   - apply IH. exact HI.
 Qed.
 
-Lemma phase_one_inv c sched : Inv c (phase_one c sched).
-Proof. unfold phase_one. apply exec_inv. apply inv_init. Qed.
+Lemma phase_one_inv c sched : Inv c (heights c) (phase_one c sched).
+Proof. unfold phase_one. apply exec_inv. apply inv_init. apply incl_refl. Qed.
+
+Lemma run_g_inv c hs g : forall fuel s, Inv c hs s -> Inv c hs (run_g fuel c (init_job c) s g).
+Proof.
+  induction fuel as [|f IH]; intros s HI; [exact HI|].
+  cbn [run_g]. destruct (next_event (nth g (s_gs s) dummy_g) g) as [e|]; [|exact HI].
+  destruct (step c (init_job c) s e) as [s'|] eqn:Hs; [|exact HI].
+  apply IH. apply (step_inv _ _ _ _ _ HI Hs).
+Qed.
+
+Lemma recheck_inv c h : In h (heights c) -> Inv c [h] (recheck c h).
+Proof.
+  intro Hh. unfold recheck. apply run_g_inv. apply inv_init.
+  intros x [<-|[]]. exact Hh.
+Qed.
 
 (** * Consequences *)
 
 (** every height has its goroutine *)
 Lemma height_goroutine c s h :
-  Inv c s -> In h (heights c) -> exists g, g < length (s_gs s) /\ g_h (nth g (s_gs s) dummy_g) = h.
+  Inv c (heights c) s -> In h (heights c) -> exists g, g < length (s_gs s) /\ g_h (nth g (s_gs s) dummy_g) = h.
 Proof.
-  intros HI Hh. rewrite <- (inv_hs _ _ HI) in Hh.
+  intros HI Hh. rewrite <- (inv_hs _ _ _ HI) in Hh.
   apply (In_nth _ _ (g_h dummy_g)) in Hh. destruct Hh as [g [Hg Hn]].
   rewrite map_length in Hg. exists g. split; [exact Hg|].
   rewrite <- Hn. symmetry. apply (map_nth g_h (s_gs s) dummy_g g).
@@ -270,4 +283,21 @@ Lemma failed_in s g : g < length (s_gs s) -> g_pc (nth g (s_gs s) dummy_g) = PDo
 Proof.
   intros Hg Hpc. unfold failed_heights. apply in_map. apply filter_In.
   split; [apply nth_In; exact Hg|]. rewrite Hpc. reflexivity.
+Qed.
+
+(** under the invariant nobody waits forever when no given peer is silent *)
+Definition no_stall (c : config) : bool := forallb (no_stall_at c) (heights c).
+
+Lemma inv_no_waiting c hs s :
+  Inv c hs s -> no_stall c = true ->
+  forall g, g < length (s_gs s) -> waits_forever c (init_job c) (nth g (s_gs s) dummy_g) = false.
+Proof.
+  intros HI Hns g Hg. unfold waits_forever.
+  destruct (g_pc (nth g (s_gs s) dummy_g)) eqn:Hpc; try reflexivity.
+  assert (Hask : asking (g_pc (nth g (s_gs s) dummy_g)) = Some t) by (rewrite Hpc; reflexivity).
+  destruct (inv_req _ _ _ HI g t Hask) as [Ht _].
+  pose proof (g_h_in c hs s g HI Hg) as Hh.
+  pose proof (proj1 (forallb_forall _ _) Hns _ Hh) as H1. unfold no_stall_at in H1.
+  pose proof (proj1 (forallb_forall _ _) H1 _ (task_peer_in c t Ht)) as H2. cbv beta in H2.
+  apply negb_true_iff in H2. exact H2.
 Qed.
